@@ -29,6 +29,7 @@ let decode_arg a = unhex a
 let () =
   let ic = if Array.length Sys.argv > 1 then open_in_bin Sys.argv.(1) else stdin in
   let oc = if Array.length Sys.argv > 2 then open_out_bin Sys.argv.(2) else stdout in
+  let pid = bytes_of_string (if Array.length Sys.argv > 3 then Sys.argv.(3) else "") in
   let total = ref 0 and bad = ref 0 and decided = ref 0 and specfail = ref 0 and shown_sf = ref 0 in
   let shown = ref 0 in
   (try
@@ -46,12 +47,17 @@ let () =
            let margs = List.map (fun a -> bytes_of_string (decode_arg a)) args in
            let r = string_of_bytes (Model.run (bytes_of_string fn) margs) in
            incr total;
-           (match Model.oracle (bytes_of_string fn) margs with
+           (match Model.oracle pid (bytes_of_string fn) margs with
             | Some e ->
               incr decided;
               let e = string_of_bytes e in
-              let obs_class = if obs = "ok" then "ok" else "reject" in
-              if e <> obs_class && e <> obs then begin
+              let is_ok = obs = "ok" || (String.length obs >= 3 && String.sub obs 0 3 = "ok:") in
+              let obs_class = if is_ok then "ok" else "reject" in
+              let bad =
+                if e = "no-panic" then obs = "panic"
+                else if e = "ok" || e = "reject" then e <> obs_class
+                else e <> obs in
+              if bad then begin
                 incr specfail;
                 if !shown_sf < 100000 then begin incr shown_sf; Printf.fprintf oc "SPECFAIL\t%s\tspec=%s\n" line e end
               end
